@@ -494,6 +494,46 @@ def run(ctx):
     ctx.ob("R5.offset-sign", FASTQ, "_score_str_to_scores", "scores -= offset / + offset",
            "scores -= offset" in ast.unparse(s2s) and "+ offset" in ast.unparse(s2c),
            "reading must subtract and writing add the offset", s2s.lineno)
+    # both directions use the same *signed* 8 bit type (Solexa scores are negative down to -5)
+    def dtypes(fn):
+        out = set()
+        for c in calls(fn):
+            for k in c.keywords:
+                if k.arg == "dtype":
+                    out.add(ast.unparse(k.value))
+            if isinstance(c.func, ast.Attribute) and c.func.attr == "astype" and c.args:
+                out.add(ast.unparse(c.args[0]))
+        return out
+    ctx.ob("R5.score-dtype", FASTQ, "_score_str_to_scores", f"read {sorted(dtypes(s2s))} / write {sorted(dtypes(s2c))}",
+           dtypes(s2s) == dtypes(s2c) == {"np.int8"},
+           "score characters must be decoded and encoded with the same signed 8-bit type: with an "
+           "unsigned type the negative Solexa scores come back as 251..255", s2s.lineno)
+    # GFF conversion: per-location columns come from the location of that row
+    gc = ctx.src("sequence/io/gff/convert.py")
+    sa2 = gc.func("set_annotation")
+    loops = [st for st in ast.walk(sa2) if isinstance(st, ast.For) and isinstance(st.target, ast.Name) and st.target.id == "loc"]
+    ctx.need(loops, "location loop of gff set_annotation")
+    app = [c for c in ast.walk(loops[0]) if isinstance(c, ast.Call) and (call_name(c) or "").endswith(".append") and len(c.args) == 9]
+    ctx.need(app, "gff_file.append(...) with 9 columns")
+    for pos, col in ((3, "start"), (4, "end"), (6, "strand")):
+        arg = app[0].args[pos]
+        ok = False
+        if isinstance(arg, ast.Name):
+            for st in ast.walk(loops[0]):
+                if isinstance(st, ast.Assign) and any(isinstance(t, ast.Name) and t.id == arg.id for t in st.targets) \
+                        and "loc" in names_in(st.value) and st.lineno < app[0].lineno:
+                    ok = True
+        else:
+            ok = "loc" in names_in(arg)
+        ctx.ob("R4.per-location-column", "sequence/io/gff/convert.py", "set_annotation", f"column {col} <- loc",
+               ok, f"the {col} column of each written row must come from the location of that row; here it "
+               "is computed outside the location loop (all locations of a feature get the first one's "
+               f"{col})", app[0].lineno)
+    ga2 = gc.func("get_annotation")
+    locs = [c for c in calls(ga2) if call_name(c) == "Location"]
+    ctx.ob("R4.per-location-column", "sequence/io/gff/convert.py", "get_annotation", "Location(start, end, strand) per row",
+           len(locs) >= 2 and all([ast.unparse(a) for a in c.args] == ["start", "end", "strand"] for c in locs),
+           "each row must become a Location of its own start, end and strand", ga2.lineno)
     # the entry tuple stored on the fast path has the order the re-indexer stores
     fs = fq.methods("FastqFile")
     fast = [st.value for st in stmts(fs["__setitem__"]) if isinstance(st, ast.Assign)
@@ -629,6 +669,10 @@ MUTANTS = [
     Mutant("gff-safe-semicolon", GFF, 'if char not in "%;=&,"', 'if char not in "%=&,"', "R4.separator-not-safe"),
     Mutant("gff-strand-swapped", GFF, '        if strand == Location.Strand.FORWARD:\n            strand = "+"',
            '        if strand == Location.Strand.FORWARD:\n            strand = "-"', "R4.strand-symbols"),
+    Mutant("fastq-uint8", FASTQ, 'scores = np.frombuffer(bytearray(score_str, encoding="ascii"), dtype=np.int8)',
+           'scores = np.frombuffer(bytearray(score_str, encoding="ascii"), dtype=np.uint8)', "R5.score-dtype"),
+    Mutant("gff-strand-outside-loop", "sequence/io/gff/convert.py", "            strand = loc.strand if is_stranded else None\n", "",
+           "R4.per-location-column"),
     Mutant("fastq-offset", FASTQ, '"Illumina-1.8": 33', '"Illumina-1.8": 64', "R5.offset-table"),
     Mutant("genbank-shift-start", GB, "for i in range(index + 1, len(self._field_pos)):", "for i in range(index, len(self._field_pos)):",
            "R5.genbank-shift"),
